@@ -247,7 +247,8 @@ def rule_B2(ctx):
         and "is_sharp_string = '#' if self.is_sharp else ''" in t and "octave_string = str(self.octave)" in t
     ctx.ob("B2", ts, "text form = letter, optional '#', octave", ok, "", inst="to_string")
     rg = ctx.prog.assigned(MIDI, "MIDI_NOTE_STR_REGEX", "B2")
-    pat = rg.args[0].value if isinstance(rg, ast.Call) and rg.args else ""
+    from .util import regex_value
+    pat, _fl = regex_value(ctx, rg, m, "B2", f"{MIDI}:MIDI_NOTE_STR_REGEX")
     tr = rx.parse(pat)
     gs = rx.groups(tr)
     import re._constants as sc
